@@ -181,6 +181,7 @@ def run(prog: Program, ctx: Ctx) -> None:  # noqa: PLR0912,PLR0915
            "the append is conditioned only on the directive being well-formed", where(rx))
     # (the signature-fallback clause is decided by the round-trip table, R6)
     _roundtrip_table(prog, ctx)
+    _annotation_kind_table(prog, ctx)
 
 
 ITEM_KINDS = ["parameters", "other parameters", "raises", "warns", "attributes", "functions", "classes", "modules", "returns", "yields", "receives"]
@@ -476,6 +477,41 @@ def _roundtrip_table(prog: Program, ctx: Ctx) -> None:  # noqa: PLR0912,PLR0915
                        f"expected {want_ann}", where(fn))
     ctx.expect_min("R6", n, 450)
     ctx.analysed["roundtrip_documents"] = n
+
+
+def _annotation_kind_table(prog: Program, ctx: Ctx) -> None:
+    """R7: the slots of R6's signature rows are chosen by the annotation's own classification (is_tuple / is_iterator / is_generator), which R6 sets by hand;
+    here the classification itself is evaluated on expressions built from annotation texts, in every spelling the typing documentation gives for the type."""
+    ctx.rule("R7", "a return annotation is classified as tuple / iterator / generator in every spelling of the type (builtin, typing alias, dotted typing alias), and "
+                   "only then: these flags decide which slot of the signature an untyped Returns / Yields / Receives item takes its type from")
+    it = Interp(prog, max_depth=60, max_steps=200_000)
+    M = "_griffe.models"
+    mod = it._construct(prog.cls(f"{M}.Module"), ["m"], {})
+    fn = it._construct(prog.cls(f"{M}.Function"), ["f"], {})
+    setm = prog.lookup_method(mod.cls, "set_member")[0]
+    it.call(setm, mod, "f", fn)
+    for n_, t_ in (("Tuple", "typing.Tuple"), ("typing", "typing"), ("Iterator", "collections.abc.Iterator"), ("Generator", "typing.Generator"), ("abc", "collections.abc")):
+        mod.attrs["imports"][n_] = t_
+        it.call(setm, mod, n_, it._construct(prog.cls(f"{M}.Alias"), [n_, t_], {}))
+    ds = it._construct(prog.cls(f"{M}.Docstring"), ["Summary."], {"parent": fn, "lineno": 1, "endlineno": 1})
+    pda = prog.function("_griffe.docstrings.utils.parse_docstring_annotation")
+    rows = {
+        "tuple[int, str]": "tuple", "Tuple[int, str]": "tuple", "typing.Tuple[int, str]": "tuple", "tuple": None, "list[int]": None, "Tuple": None,
+        "Iterator[int]": "iterator", "typing.Iterator[int]": "iterator", "abc.Iterator[int]": "iterator",
+        "Generator[int, str, None]": "generator", "typing.Generator[int, str, None]": "generator", "abc.Generator[int, str, None]": "generator",
+    }
+    ecls = prog.cls("_griffe.expressions.Expr")
+    for text, want in rows.items():
+        it.steps = 0
+        it.depth = 0
+        try:
+            e = it.call(pda, text, ds)
+            got = [k_ for k_ in ("tuple", "iterator", "generator") if not isinstance(e, str) and it.getattr(e, f"is_{k_}")]
+        except Raised as r:
+            got = [f"raises {r.exc}"]
+        ctx.ob("R7", f"kind|{text}", got == ([want] if want else []), f"`-> {text}` is classified as {got or 'none of the three'}; it is {want or 'none of the three'}",
+               where(prog.lookup_method(ecls, "is_tuple")[0]))
+    ctx.expect_min("R7", len(rows), 12)
 
 
 def _arm(c: ast.Call) -> str:
